@@ -280,6 +280,7 @@ fn children(e: &Expr) -> Vec<(&Expr, bool)> {
     match e {
         Expr::Bin(Op::And | Op::Or, a, b) => vec![(a, true), (b, false)],
         Expr::Bin(_, a, b) | Expr::MkPair(a, b) => vec![(a, true), (b, true)],
+        Expr::TraceArg(a, b) => vec![(a, false), (b, true)],
         Expr::Not(a) | Expr::Neg(a) | Expr::ToData(a, _) | Expr::Field(a, ..) | Expr::TupleIdx(a, _) | Expr::Trace(_, a) | Expr::TraceIfFalse(a) => vec![(a, true)],
         Expr::If(c, t, f) => vec![(c, true), (t, false), (f, false)],
         Expr::When(s, cl) => std::iter::once((s.as_ref(), true)).chain(cl.iter().map(|(_, b)| (b, false))).collect(),
@@ -368,7 +369,7 @@ fn class_of(body: &Expr) -> &'static str {
         Expr::Field(..) | Expr::TupleIdx(..) | Expr::Update(..) => "field",
         Expr::List(..) => "list",
         Expr::Call(..) | Expr::Pipe(..) | Expr::Capture(..) | Expr::Lam(..) => "call",
-        Expr::Trace(..) | Expr::TraceIfFalse(..) => "trace",
+        Expr::Trace(..) | Expr::TraceArg(..) | Expr::TraceIfFalse(..) => "trace",
         Expr::AndBlock(..) | Expr::OrBlock(..) => "connective",
         Expr::Not(..) | Expr::Neg(..) => "unary",
         _ => "atom",
